@@ -23,10 +23,11 @@ FIELDS.update({
     'ContentProtectionSpecificBox': [],
     'SegmentIndexBox': ['reference_id', 'timescale', 'earliest_presentation_time', 'first_offset'],
     'SampleAuxiliaryInformationSizesBox': ['aux_info_type', 'aux_info_type_parameter', 'sample_count', 'default_sample_info_size'],
+    'SampleAuxiliaryInformationOffsetsBox': ['aux_info_type', 'aux_info_type_parameter'],
 })
 SIDX_REF_FIELDS = ['ref_type', 'ref_size', 'duration', 'starts_with_SAP', 'SAP_type', 'SAP_delta_time']
 EMSG_SCHEME, EMSG_VALUE = 'urn:scte:scte35:2014:xml+bin', '5'
-FOURCC = {'SampleAuxiliaryInformationSizesBox': 'saiz', 'SegmentIndexBox': 'sidx', 'ContentProtectionSpecificBox': 'pssh', 'TrackEncryptionBox': 'tenc', 'MediaHeaderBox': 'mdhd', 'EventMessageBox': 'emsg',
+FOURCC = {'SampleAuxiliaryInformationSizesBox': 'saiz', 'SampleAuxiliaryInformationOffsetsBox': 'saio', 'SegmentIndexBox': 'sidx', 'ContentProtectionSpecificBox': 'pssh', 'TrackEncryptionBox': 'tenc', 'MediaHeaderBox': 'mdhd', 'EventMessageBox': 'emsg',
           'MovieFragmentHeaderBox': 'mfhd', 'MovieExtendsHeaderBox': 'mehd', 'TrackExtendsBox': 'trex',
           'TrackFragmentDecodeTimeBox': 'tfdt', 'TrackFragmentHeaderBox': 'tfhd', 'TrackFragmentRunBox': 'trun'}
 
@@ -230,6 +231,14 @@ def build(key, variant, i):
         if parts[1].endswith('table'):
             kw['default_sample_info_size'] = 0
         extra_env.update(aux_info_type=kw['aux_info_type'], aux_info_type_parameter=kw['aux_info_type_parameter'])
+    saio_first = None
+    if variant == 'SampleAuxiliaryInformationOffsetsBox':
+        noff = int(parts[1][0])
+        offs = [int(i[f'off{j}']) for j in range(noff)]
+        extra_env.update({f'off{j}': v for j, v in enumerate(offs)})
+        kw['offsets'] = offs
+        extra_env.update(aux_info_type=kw['aux_info_type'], aux_info_type_parameter=kw['aux_info_type_parameter'])
+        saio_first = None if i.get('senc_missing') else int(i.get('senc_pos', 0))
     if variant == 'EventMessageBox':
         kw.update(scheme_id_uri=EMSG_SCHEME, value=EMSG_VALUE,
                   data=int(i['payload']).to_bytes(7, 'big') if payload and 0 <= int(i['payload']) < 256 ** 7 else None)
@@ -237,6 +246,9 @@ def build(key, variant, i):
     box = cls(atom_type=FOURCC[variant], position=0, size=0, version=int(i['version']), flags=int(i['flags']), **kw)
     moof = NS(position=int(i.get('moof_position', 0)))
     parent = NS(find_atom=lambda name: moof, tfhd=tfhd)
+    if variant == 'SampleAuxiliaryInformationOffsetsBox':
+        # what the box would find in its traf (a senc box with samples, or none): decided by the witness
+        object.__setattr__(box, 'find_first_cenc_sample', lambda: saio_first)
     if variant == 'TrackFragmentHeaderBox':
         box.find_atom = lambda name: moof
     dest = Stream()
